@@ -308,6 +308,8 @@ func propC13(c *Ctx) {
 	fInputs := w.Field("dig", "Event", "Inputs")
 	fComps := w.Field("dig", "Input", "Components")
 	fType := w.Field("dig", "Input", "Type")
+	// the builders may be byte-appending cores that the string methods wrap (Signature() = string(x.appendSignature(nil)))
+	es, is = sigCore(es), sigCore(is)
 	checkRangeAll(c, "R13.3", es, fInputs, is, "Event.Signature")
 	checkRangeAll(c, "R13.3", is, fComps, is, "Input.Signature")
 	// Replace(inp.Type, "tuple", s, 1)
@@ -366,6 +368,9 @@ func propC13(c *Ctx) {
 					// the suffix is the LAST piece
 					return hasSuffix(b.Y, d+1)
 				}
+				if call, ok := v.(*ssa.Call); ok && calleeName(call) == "builtin append" && len(call.Call.Args) == 2 && d < 8 {
+					return hasSuffix(call.Call.Args[1], d+1) // append(dst, dims...)
+				}
 				return false
 			}
 			if hasSuffix(returnValues(r)[0], 0) {
@@ -377,8 +382,12 @@ func propC13(c *Ctx) {
 	// non-tuple: returns Type unchanged
 	okPlain := false
 	for _, r := range returnsOf(is) {
-		if fieldIsOrLoad(returnValues(r)[0], fType) {
+		rv := returnValues(r)[0]
+		if fieldIsOrLoad(rv, fType) {
 			okPlain = true
+		}
+		if call, ok := stripConv(rv).(*ssa.Call); ok && calleeName(call) == "builtin append" && len(call.Call.Args) == 2 && fieldIsOrLoad(call.Call.Args[1], fType) {
+			okPlain = true // append(dst, inp.Type...)
 		}
 	}
 	c.Check("R13.3", "Input.Signature/elementary-type-verbatim", is.Pos(), okPlain, "an elementary input contributes its type string verbatim")
@@ -597,6 +606,37 @@ func checkRangeAll(c *Ctx, rule string, fn *ssa.Function, over *types.Var, elemF
 		}
 	}
 	if call == nil {
+		// the loop in a helper that several builders share (appendTypes(dst, e.Inputs) / (dst, inp.Components)):
+		// followed from fn through the calls, the slice seen under the calls entered
+		var descend func(f *ssa.Function, stack []*ssa.Call, d int)
+		descend = func(f *ssa.Function, stack []*ssa.Call, d int) {
+			for _, ci := range callsIn(f) {
+				cl, isCall := ci.(*ssa.Call)
+				if !isCall {
+					continue
+				}
+				cal := staticCallee(cl)
+				if cal == nil {
+					continue
+				}
+				if cal == elemFn && (len(stack) > 0 || f == fn) {
+					s, idx, ok := elemOf(cl.Call.Args[0])
+					if ok && isInduction(idx) {
+						u := unfold(cval{stripConv(s), stack})
+						if _, ch := fieldChain(u.v); len(ch) == 1 && ch[0] == over && u.top() {
+							call = cl
+						}
+					}
+					continue
+				}
+				if d < 2 && isRepoFunc(cal) && cal.Blocks != nil && cal != fn && cal != elemFn {
+					descend(cal, append(append([]*ssa.Call{}, stack...), cl), d+1)
+				}
+			}
+		}
+		descend(fn, nil, 0)
+	}
+	if call == nil {
 		c.Violation(rule, name+"/ranges-over-"+over.Name(), fn.Pos(), "does not call Signature() on the elements of ."+over.Name()+" (e.g. ranges over a filtered list)")
 		return
 	}
@@ -617,7 +657,43 @@ func checkRangeAll(c *Ctx, rule string, fn *ssa.Function, over *types.Var, elemF
 		// inside the loop (reachable from the call's block and reaching it)?
 		r1, _ := reach(Site{call.Block(), len(call.Block().Instrs) - 1}, isInstr(iff), nil)
 		if r1 {
+			// a branch whose two arms both arrive at the call within the same iteration does not
+			// decide whether the element is visited (`if i > 0 { write a comma }`)
+			cuts := newCuts()
+			for hb := range hdrBody {
+				cuts.addInstr(terminator(hb))
+			}
+			a0, _ := reach(Site{b.Succs[0], -1}, isInstr(call), cuts)
+			a1, _ := reach(Site{b.Succs[1], -1}, isInstr(call), cuts)
+			if a0 && a1 {
+				continue
+			}
 			condFree = false
+		}
+	}
+	// every iteration passes the call: from the body's entry the loop test is not reached again
+	// (nor the function left) without it – this also sees `if a && b { continue }`, where no single
+	// branch dominates the call
+	{
+		var inner *ssa.BasicBlock
+		for hb := range hdrBody {
+			if !hb.Dominates(call.Block()) {
+				continue
+			}
+			if back, _ := reach(Site{call.Block(), len(call.Block().Instrs) - 1}, isInstr(terminator(hb)), nil); !back {
+				continue
+			}
+			if inner == nil || inner.Dominates(hb) {
+				inner = hb
+			}
+		}
+		if inner != nil {
+			cuts := newCuts().addInstr(call)
+			if by, _ := reach(Site{inner.Succs[0], -1}, func(in ssa.Instruction) bool {
+				return in == terminator(inner) || isExit(in)
+			}, cuts); by {
+				condFree = false
+			}
 		}
 	}
 	// the result is written to the builder
@@ -644,6 +720,13 @@ func checkRangeAll(c *Ctx, rule string, fn *ssa.Function, over *types.Var, elemF
 		}
 		if b, ok := ref.(*ssa.BinOp); ok && b.Op == token.ADD {
 			written = true
+		}
+		// the accumulator is threaded through the element's builder: dst = x.appendSignature(dst)
+		if isByteSlice(call.Type()) {
+			switch ref.(type) {
+			case *ssa.Phi, *ssa.Return:
+				written = true
+			}
 		}
 		// collected into a slice element for a later strings.Join: parts[i] = x.Signature()
 		if st, ok := ref.(*ssa.Store); ok && st.Val == ssa.Value(call) {
@@ -803,6 +886,19 @@ func sigHashFn(w *World, f *ssa.Function, d int) bool {
 		}
 		conv, ok := a.(*ssa.Convert)
 		if !ok {
+			// the bytes of the signature without the detour through a string: the core that
+			// Signature() itself converts (Signature() = string(e.appendSignature(nil)))
+			if bc, isCall := stripConv(a).(*ssa.Call); isCall && len(bc.Call.Args) > 0 && isRecv(bc.Call.Args[0]) {
+				sigFn := w.Fn("dig", "Event.Signature")
+				if core := sigCore(sigFn); core != sigFn && staticCallee(bc) == core {
+					for _, x := range bc.Call.Args[1:] {
+						if !isNilConst(x) {
+							return false
+						}
+					}
+					return true
+				}
+			}
 			return false
 		}
 		sc, ok := conv.X.(*ssa.Call)
@@ -953,4 +1049,52 @@ func sortedVarsInt(m map[*types.Var]int64) []*types.Var {
 	}
 	sort.Slice(out, func(i, j int) bool { return out[i].Pos() < out[j].Pos() })
 	return out
+}
+
+// sigCore: when f only converts what a method of the same receiver builds from
+// nothing (`return string(x.appendSignature(nil))`), that method; f otherwise.
+func sigCore(f *ssa.Function) *ssa.Function {
+	rets := returnsOf(f)
+	if len(rets) != 1 || len(f.Params) == 0 {
+		return f
+	}
+	conv, ok := returnValues(rets[0])[0].(*ssa.Convert)
+	if !ok {
+		return f
+	}
+	call, ok := conv.X.(*ssa.Call)
+	if !ok || len(call.Call.Args) == 0 {
+		return f
+	}
+	g := staticCallee(call)
+	if g == nil || g.Blocks == nil || !isRepoFunc(g) || g.Signature.Recv() == nil || f.Signature.Recv() == nil ||
+		!types.Identical(g.Signature.Recv().Type(), f.Signature.Recv().Type()) {
+		return f
+	}
+	r := stripConv(call.Call.Args[0])
+	if u, isU := r.(*ssa.UnOp); isU && u.Op == token.MUL {
+		if al, isAl := u.X.(*ssa.Alloc); isAl {
+			if cv := cellValue(al); cv != nil {
+				r = stripConv(cv)
+			}
+		}
+	}
+	if r != ssa.Value(f.Params[0]) {
+		return f
+	}
+	for _, a := range call.Call.Args[1:] {
+		if !isNilConst(a) {
+			return f
+		}
+	}
+	return g
+}
+
+func isByteSlice(t types.Type) bool {
+	sl, ok := t.Underlying().(*types.Slice)
+	if !ok {
+		return false
+	}
+	b, ok := sl.Elem().Underlying().(*types.Basic)
+	return ok && b.Kind() == types.Uint8
 }
